@@ -5,7 +5,7 @@ import itertools
 import gen
 
 OBJS3 = ["maxmin", "minmax", "diff"]
-OBJS5 = OBJS3 + ["ksmall:2", "klarge:2", "ksmall:1", "klarge:3"]
+OBJS5 = OBJS3 + ["ksmall:2", "klarge:2", "ksmall:1", "klarge:3", "klarge:1", "ksmall:3", "ksmall:7", "klarge:9"]      # incl. k >= number of bins
 SWITCHES = [dict(lb=a, fast=b, h3=c, seen=d) for a in (0, 1) for b in (0, 1) for c in (0, 1) for d in (0, 1)]
 
 HEURISTIC_PART = ["greedy", "roundrobin", "multifit", "kk"]
@@ -39,6 +39,19 @@ def part_params(rng, alg, n, k=None, objs=OBJS5, cut=False):
     if alg == "cbldm":
         p = {"k": 2, "d": rng.choice([None, None, 1, 2, 3, n]), "cut": (rng.randint(1, 60) if cut else None)}
     return p
+
+
+def cap_k(case):
+    """re-apply the size limits of part_params to a case whose items or k were changed afterwards (zeros added, sibling k)"""
+    a, p, n = case["alg"], case["p"], len(case["vals"])
+    if a in ("ckk", "snp", "rnp") and "k" in p and p["k"] <= 5:
+        if n > (6 if a == "ckk" else 7):
+            p["k"] = min(p["k"], 4)
+        if a == "snp" and n > 9:
+            p["k"] = min(p["k"], 3)
+    if a == "cg" and n > 9:
+        p["k"] = min(p["k"], 4)
+    return case
 
 
 def max_n(alg):
